@@ -492,9 +492,12 @@ def read_meta_data(md_file):
         k, v = a.split("=", maxsplit=1)
         # if all numbers, try to interpret the string
         if v and re.fullmatch("[0-9,.]*", v) and v.count(".") < 2:
-            v = [float(val) for val in v.split(",")]
+            try:
+                v = [float(val) for val in v.split(",")]
+            except ValueError:
+                pass  # text made of digits, commas and dots that is not a number or a list of numbers (',' or '1,,2'): kept as it is
             # scalars should not be nested
-            if len(v) == 1:
+            if len(v) == 1 and not isinstance(v, str):
                 v = v[0]
         # tildes in keynames removed
         d[k.replace("~", "")] = v
